@@ -159,10 +159,16 @@ def f_frag( ctx ):
             code = g_.class_const( nm, 'tag_type' )
             v_ = type_guard_value( gd.test, code )
             if v_ is None:
-                raise AnalysisError( 'reply_elements: the type guard of the write element size cannot be evaluated: %s' % norm_text( gd.test ))
+                # a guard that also looks at the TAG's type: not decided here - the whole-function table at the end of this rule writes every
+                # narrower type into every wider tag and decides it by value
+                res.note( 'the type guard of the write element size looks at more than the transmitted type ( %s ): left to the whole-function table' % norm_text( gd.test ))
+                wrong_ = None
+                break
             if bool( v_ ) != ( nm in FIXED ):
                 wrong_.append( nm )
-        if wrong_:
+        if wrong_ is None:
+            pass
+        elif wrong_:
             res.bad( src, gd, 'the write element size is that of the transmitted type for %s' % ( 'all but ' + ', '.join( w for w in wrong_ if w in FIXED ) if any( w in FIXED for w in wrong_ ) else 'also ' + ', '.join( wrong_ )),
                      'the type table admits BOOL .. LREAL data into wider tags; for a type left out of the guard the byte offset of a tile is converted with the TAG\'s element size again: tiles from the second on land on the wrong elements ( acknowledged 0x00 ) or are refused' )
         else:
@@ -324,6 +330,39 @@ def f_frag( ctx ):
                ( 'Read Tag Fragmented of STRING elements at offset 0', 0xD0, 80, 0xD2, { 'offset': 0, 'elements': 20 }, 'return' ),
                ( 'Read Tag Fragmented of DINT elements at offset 80', 0xC4, 4, 0xD2, { 'offset': 80, 'elements': 30 }, 'return' ),
                ( 'Read Tag Fragmented of structures at offset 80', 0x2A0, 8, 0xD2, { 'offset': 80, 'elements': 30 }, 'return' ))
+    # ... and the byte offset of a WRITE counts elements of the type it transmits - every basic type, signed or not ( CIP type codes are not
+    # ordered by width: USINT 0xC6 lies above DINT 0xC4 ): by value, the second tile of a narrower type lands where the first ended
+    WIDTH = { 0xC1: 1, 0xC2: 1, 0xC6: 1, 0xC3: 2, 0xC7: 2, 0xC4: 4, 0xC8: 4, 0xCA: 4, 0xC5: 8, 0xC9: 8, 0xCB: 8 }
+    def extent2( tag, sent, off ):
+        att = _Rec( parser=_Rec( struct_calcsize=WIDTH[tag], tag_type=tag ), n=40 )
+        cx = { 'offset': off, 'elements': 20, 'type': sent, 'data': [ 1, 2 ] }
+        env = { 'self.RD_TAG_RPY': 0xCC, 'self.RD_FRG_RPY': 0xD2, 'self.WR_TAG_RPY': 0xCD, 'self.WR_FRG_RPY': 0xD3, 'self.MAX_BYTES': 500,
+                'Logix.RD_TAG_RPY': 0xCC, 'Logix.RD_FRG_RPY': 0xD2, 'Logix.WR_TAG_RPY': 0xCD, 'Logix.WR_FRG_RPY': 0xD3, 'Logix.MAX_BYTES': 500,
+                'resolve_element': lambda p_: ( 0, ), 'type': type, 'tuple': tuple, 'len': lambda x: x.n if isinstance( x, _Rec ) else len( x ),
+                'STRING.tag_type': 0xD0, 'SSTRING.tag_type': 0xDA, 'STRUCT.tag_type': 0x2A0, 'typed_data.datasize': lambda t, *a: WIDTH[t] * ( a[0] if a else 1 ),
+                **EXTRA, PARAMS[0]: att, PARAMS[1]: { 'service': 0xD3, 'path': 'P', 'read_frag': cx, 'write_frag': cx }, PARAMS[2]: 'write_frag' }
+        try:
+            out = _run( [ st for st in fn.body if not ( isinstance( st, ast.Expr ) and isinstance( st.value, ast.Constant )) ], env, ignore_calls=( 'log', ))
+        except _NoFold as exc:
+            if res.findings:
+                return None
+            raise AnalysisError( 'Logix.reply_elements: not a decision fragment: %s' % exc )
+        return out.value[0] if out.kind == 'return' and isinstance( out.value, tuple ) else out.kind
+    wrong2 = []
+    for tag, sent in (( 0xC4, 0xC2 ), ( 0xC4, 0xC6 ), ( 0xC4, 0xC3 ), ( 0xC4, 0xC7 ), ( 0xC5, 0xC8 ), ( 0xC3, 0xC6 ), ( 0xCB, 0xCA ), ( 0xC4, 0xC4 ), ( 0xC4, 0xC1 )):
+        off = 6 * WIDTH[sent]					# the tile behind six elements of the transmitted type
+        got = extent2( tag, sent, off )
+        res.cells += 1
+        if got is None:
+            break
+        if got != 6:
+            wrong2.append(( tag, sent, off, got ))
+    if wrong2:
+        tag, sent, off, got = wrong2[0]
+        res.bad( src, fn, 'Logix.reply_elements: a Write Tag Fragmented of type 0x%02X into a tag of type 0x%02X at byte offset %d starts at element %r, not 6' % ( sent, tag, off, got ),
+                 'the byte offset of a write counts elements of the transmitted type: converted with the tag\'s element size, the tiles of a narrower type overlap or skip elements ( every tile acknowledged 0x00 ) - %d of 9 type pairs' % len( wrong2 ), func='Logix.reply_elements' )
+    elif got is not None:
+        res.ok( src, fn, 'a write\'s byte offset counts elements of the type transmitted, for signed and unsigned narrower types alike ( 9 type pairs )' )
     for what, tag, size, svc, cx, want in cells_:
         got = extent( tag, size, svc, cx )
         res.cells += 1
